@@ -33,8 +33,8 @@ func Probe(id int, x any)       {}
 func Mark[X any](k int, x X) X  { return x }
 func Enter(name string)         {}
 func Leave()                    {}
-func GoBegin()                  {}
-func GoEnd()                    {}
+func GoBegin() int              { return 0 }
+func GoEnd(w int)               {}
 func D(k int)                   {}
 func Boom()                     {}
 func Wait()                     {}
@@ -167,9 +167,16 @@ func flushProbes() {
 var (
 	cstack  []string
 	events  = map[string]bool{}
-	waiting = -1
-	goDone  = make(chan bool, 8)
+	gowait  []*goWaiter
 )
+
+// goWaiter is one pending go statement: the launching goroutine blocks in GoEnd until the launched function has
+// returned (its Leave brings the recorded call stack back to the depth of the go statement).
+type goWaiter struct {
+	depth int
+	done  bool
+	ch    chan bool
+}
 
 func Enter(name string) {
 	caller := "<root>"
@@ -184,19 +191,26 @@ func Leave() {
 	if len(cstack) > 0 {
 		cstack = cstack[:len(cstack)-1]
 	}
-	if waiting >= 0 && len(cstack) == waiting {
-		waiting = -1
-		goDone <- true
+	for i := len(gowait) - 1; i >= 0; i-- {
+		if w := gowait[i]; !w.done && w.depth == len(cstack) {
+			w.done = true
+			w.ch <- true
+			break
+		}
 	}
 }
 
-// GoBegin/GoEnd bracket a go statement: GoEnd blocks until the launched function has returned.
-func GoBegin() { waiting = len(cstack) }
-func GoEnd() {
+// GoBegin/GoEnd bracket a go statement (w := rt.GoBegin(); go f(); rt.GoEnd(w)): GoEnd blocks until the launched
+// function has returned, so that the single recorded call stack stays meaningful; go statements nest.
+func GoBegin() int {
+	gowait = append(gowait, &goWaiter{depth: len(cstack), ch: make(chan bool, 1)})
+	return len(gowait) - 1
+}
+func GoEnd(w int) {
 	select {
-	case <-goDone:
-	case <-time.After(2 * time.Second):
-		waiting = -1
+	case <-gowait[w].ch:
+	case <-time.After(120 * time.Second):
+		gowait[w].done = true
 	}
 }
 
@@ -360,7 +374,7 @@ func runOnce1(e Entry, prefix []bool) (n int, panicked bool) {
 	valid = map[string]bool{}
 	dlog = nil
 	cstack = nil
-	waiting = -1
+	gowait = nil
 	e.Reset()
 	defer func() {
 		if r := recover(); r != nil {
